@@ -584,7 +584,10 @@ pub fn stress_text(w: &RWorld, fam: Fam, k: u64) -> (String, &'static str) {
         91 => (format!("{}{}", outer(leaf.clone()), "#".repeat(100_000)), "hashes-1e5"),
         92 => (outer(format!("pk({}{})", w.xpub[0], "/0".repeat(100_000))), "path-1e5"),
         93 => (outer(format!("pk([{}{}]{})", w.fp[0], "/0'".repeat(100_000), w.xpub[0])), "origin-path-1e5"),
-        94 => (outer(format!("pk({}/<{}1>/*)", w.xpub[0], "0;".repeat(1_000))), "multipath-1e3"),
+        94 => {
+            let alts: Vec<String> = (0..1_000).map(|i| i.to_string()).collect();
+            (outer(format!("pk({}/<{}>/*)", w.xpub[0], alts.join(";"))), "multipath-1e3")
+        }
         95 => (outer(format!("pk({}/<0;1>/*)", w.xpub[0])), "multipath-valid"),
         96 => (outer(format!("multi(2,{}/<0;1>/*,{}/<0;1;2>/*)", w.xpub[0], w.xpub[1])), "multipath-unequal"),
         97 => (outer(format!("or(0@{},1@{})", leaf, leaf)), "odds-0"),
@@ -614,7 +617,11 @@ pub fn stress_text(w: &RWorld, fam: Fam, k: u64) -> (String, &'static str) {
         118 => (outer(format!("sortedmulti(1,{})", vec![key.clone(); 21].join(","))), "sortedmulti-21"),
         119 => (outer(format!("multi_a(1,{})", vec![key.clone(); 1000].join(","))), "multi_a-1000"),
         120 => (outer(format!("pk(xpub{})", "1".repeat(400_000))), "base58-4e5"),
-        121 => (outer(format!("pk({}/<{}1>/*)", w.xpub[0], "0;".repeat(20_000))), "multipath-2e4"),
+        121 => {
+            // distinct alternatives (a repeated index is rejected at parse)
+            let alts: Vec<String> = (0..20_000).map(|i| i.to_string()).collect();
+            (outer(format!("pk({}/<{}>/*)", w.xpub[0], alts.join(";"))), "multipath-2e4")
+        }
         122 => {
             // reported by the C07 builder: 521-byte redeem script accepted (uncompressed keys counted as 65 bytes)
             let u = format!("{}", w.w.pks[6]);
